@@ -19,7 +19,7 @@ THEOREMS = [
     'C10.box_model_roundtrip', 'C10.box_model_roundtrip_exact', 'C10.box_model_roundtrip_xml',
     'C10.box_setter_roundtrip',
     # Atoms
-    'C10.atoms_model_roundtrip', 'C10.atoms_model_roundtrip_xml',
+    'C10.atoms_model_roundtrip', 'C10.atoms_model_roundtrip_xml', 'C10.atoms_model_select',
     # System (scaled properties, symbols, masses, pbc), two configurations
     'C10.system_model_roundtrip', 'C10.system_model_roundtrip_xml', 'C10.system_model_two_units',
     # ElasticConstants
@@ -36,8 +36,10 @@ PARTIAL = {
         'is a true division; stated in the theorems, not hidden',
     'empty arrays': 'the value theorems assume a non-empty array (prodNat shape != 0): numpy gives an empty list the '
         'float dtype, so empty int/str arrays change dtype class',
-    'prop_unit subsets': 'the Atoms/System theorems are about writing all properties in dictionary order (the default '
-        'of System.model / dump); a call that selects or reorders properties reproduces only those (not stated)',
+    'prop_unit subsets': 'Atoms: atoms_model_select covers every selection / order of properties (reading = '
+        'constructing Atoms from the selected converted properties, defaults for a missing atype / pos). The System '
+        'theorems are about writing all properties in dictionary order (the default of System.model / dump); a '
+        'System.model call that selects properties is not stated',
     'text codecs': "DataModelDict's JSON/XML codecs are not modelled character by character: JSON is taken as the "
         'identity on the tree, XML as xmlNorm (one-element-list collapse); both observed on every correspondence case',
 }
@@ -48,7 +50,8 @@ RULE = ('seeded systems (1-7 atoms, 1-3 types, tilted dyadic cells, non-zero ori
         '0-4, Box, Atoms, ElasticConstants (all crystal systems); each case written under one uc.reset_units '
         'configuration and read under another, through the DataModelDict tree, its JSON text and its XML text; '
         'distinct = distinct canonical request line; non-trivial = a unit conversion, a reshape, a scaled property '
-        'or a text encoding is involved')
+        'or a text encoding is involved; 30 % of the Atoms cases write a random selection of the properties in '
+        'random order (atype / pos possibly left out); systems are also dumped to file paths and file objects')
 ASSUMPTIONS = [
     "the conversion factor of a unit string under a working-unit configuration is a scalar parameter fac(u) != 0 "
     "(uc.parse is property C09's subject); the factor of one unit string under two configurations differs by a "
@@ -195,8 +198,15 @@ def gen_atoms(rng):
     for p in props:
         if p['unit'] == 'scaled' and rng.random() < 0.5:
             p['unit'] = 'nm'        # Atoms.model alone treats 'scaled' as factor 1
-    return {'kind': 'atoms', 'via': rng.choice(['tree', 'json', 'xml']), 'w1': w1, 'w2': w2,
+    case = {'kind': 'atoms', 'via': rng.choice(['tree', 'json', 'xml']), 'w1': w1, 'w2': w2,
             'natoms': natoms, 'props': props}
+    if rng.random() < 0.3:
+        # Atoms.model(prop_unit=...) with a selection of the properties in another order (atype / pos may be left
+        # out: the reader then fills in the constructor's defaults)
+        sel = [p for p in props if rng.random() < 0.7]
+        rng.shuffle(sel)
+        case['sel'] = [{'name': p['name'], 'unit': p['unit']} for p in sel]
+    return case
 
 
 def gen_sys(rng):
@@ -295,6 +305,8 @@ def _units_of(case):
     k = case['kind']
     if k in ('uc', 'box', 'ec'):
         return [case['unit']]
+    if case.get('sel') is not None:
+        return [eff_unit(e['name'], e['unit']) for e in case['sel']]
     us = [eff_unit(p['name'], p['unit']) for p in case['props']]
     if k == 'sys':
         us.append(case['box_unit'])
@@ -377,7 +389,8 @@ def _run_real(case, r) -> RealRun:
         elif k == 'box':
             model = _mk_box(case['box']).model(length_unit=case['unit'])
         elif k == 'atoms':
-            model = _mk_atoms(case).model(prop_unit={p['name']: p['unit'] for p in case['props']})
+            chosen = case['sel'] if case.get('sel') is not None else case['props']
+            model = _mk_atoms(case).model(prop_unit={p['name']: p['unit'] for p in chosen})
         elif k == 'sys':
             s = _mk_sys(case)
             r.extra['symbols'] = list(s.symbols)
@@ -500,7 +513,11 @@ def request_line(case, r: RealRun) -> str:
     props = ' '.join(f"{p['name']} {_u(p['unit'], r.fW, r.fR, p['name'])} {_arr_tokens(p)}"
                      for p in case.get('props', []))
     if k == 'atoms':
-        return f"atoms {via} {case['natoms']} {len(case['props'])} {props}"
+        line = f"atoms {via} {case['natoms']} {len(case['props'])} {props}"
+        if case.get('sel') is not None:
+            line += f" sel {len(case['sel'])} " + ' '.join(f"{e['name']} {_u(e['unit'], r.fW, r.fR, e['name'])}"
+                                                           for e in case['sel'])
+        return line.strip()
     if k == 'sys':
         symbols, ms = r.extra['symbols'], r.extra['masses']      # the System's state (padded with None)
         syms = ' '.join('-' if s is None else s for s in symbols)
@@ -911,12 +928,23 @@ def oracle(ctx, case, r: RealRun):
     if atoms.natoms != case['natoms']:
         ctx.violate(f'{k}:{via}:natoms', f"{tag}: natoms {atoms.natoms} read back, {case['natoms']} written", {'case': case})
         return False
-    names = [p['name'] for p in case['props']]
+    eprops = case['props']
+    if k == 'atoms' and case.get('sel') is not None:
+        # a selection: atype and pos first (the constructor's defaults when not selected), then the others in order
+        byname = {p['name']: p for p in case['props']}
+        units = {e['name']: e['unit'] for e in case['sel']}
+        n = case['natoms']
+        eprops = [dict(byname['atype'], unit=units['atype']) if 'atype' in units else
+                  {'name': 'atype', 'unit': None, 'dt': 'i', 'shape': [n], 'data': [1] * n},
+                  dict(byname['pos'], unit=units['pos']) if 'pos' in units else
+                  {'name': 'pos', 'unit': None, 'dt': 'f', 'shape': [n, 3], 'data': [0.0] * (3 * n), 'default': True}]
+        eprops += [dict(byname[e['name']], unit=e['unit']) for e in case['sel'] if e['name'] not in ('atype', 'pos')]
+    names = [p['name'] for p in eprops]
     if atoms.prop() != names:
         ctx.violate(f'{k}:{via}:properties', f'{tag}: properties {atoms.prop()} read back, {names} written', {'case': case})
         return False
-    for p in case['props']:
-        eu = eff_unit(p['name'], p['unit'])
+    for p in eprops:
+        eu = None if p.get('default') else eff_unit(p['name'], p['unit'])
         if eu == 'scaled' and k == 'sys':
             ok &= _check_array(ctx, f'sys:{via}:scaled', f"{tag} scaled property {p['name']}", case, atoms.view[p['name']],
                                p, rL, loose[0], loose[1] * max(1.0, float(rL)), False)
